@@ -17,8 +17,31 @@ mod verif_c04_name {
     fn write_slice_count(_w: &mut TableWriter, bytes: &[u8]) {
         unsafe { COUNT += bytes.len(); if bytes.len() == 2 { LAST = [bytes[0], bytes[1]]; } }
     }
-    //@defaults unit=U04.4 props=C04 tier=quick level=bounded bound="strings of 2 characters, every pair of Unicode scalar values" timeout=900
+    fn declared_vs_written(s: &str) -> (usize, usize) {
+        let w = NameStringWriter { encoding: Encoding::Utf16Be, string: s };
+        let declared = w.compute_length() as usize;
+        unsafe { COUNT = 0; }
+        let mut tw = TableWriter::default();
+        w.write_into(&mut tw);
+        (declared, unsafe { COUNT })
+    }
+    //@defaults unit=U04.4 props=C04 tier=quick level=bounded bound="strings of 1 character, every Unicode scalar value" timeout=900
     //@harness fns=NameStringWriter::compute_length,NameStringWriter::write_into
+    #[kani::proof]
+    #[kani::unwind(8)]
+    #[kani::stub(std::hash::RandomState::new, fixed_random_state)]
+    #[kani::stub(TableWriter::write_slice, write_slice_count)]
+    fn name_string_utf16_declared_length_one_char() {
+        let c1: char = kani::any();
+        let mut buf = [0u8; 4];
+        let s: &str = c1.encode_utf8(&mut buf);
+        let (declared, written) = declared_vs_written(s);
+        assert!(declared == written);
+        assert!(written == 2 * c1.len_utf16());
+        kani::cover!(c1 as u32 > 0xFFFF);
+        kani::cover!((c1 as u32) < 0x80);
+    }
+    //@harness fns=NameStringWriter::compute_length,NameStringWriter::write_into tier=thorough timeout=2400 bound="strings of 2 characters, every pair of Unicode scalar values"
     #[kani::proof]
     #[kani::unwind(10)]
     #[kani::stub(std::hash::RandomState::new, fixed_random_state)]
@@ -30,12 +53,7 @@ mod verif_c04_name {
         let l1 = c1.encode_utf8(&mut buf).len();
         let l2 = c2.encode_utf8(&mut buf[l1..]).len();
         let s = core::str::from_utf8(&buf[..l1 + l2]).unwrap();
-        let w = NameStringWriter { encoding: Encoding::Utf16Be, string: s };
-        let declared = w.compute_length() as usize;
-        unsafe { COUNT = 0; }
-        let mut tw = TableWriter::default();
-        w.write_into(&mut tw);
-        let written = unsafe { COUNT };
+        let (declared, written) = declared_vs_written(s);
         assert!(declared == written);
         assert!(written == 2 * (c1.len_utf16() + c2.len_utf16()));
         kani::cover!(c1 as u32 > 0xFFFF && (c2 as u32) < 0x80);
